@@ -315,6 +315,9 @@ def is_none(v: Any) -> Any:
         return V.is_VNone(v) if v.sort() == V.Val else False
     if isinstance(v, Opaque):
         return fresh(f"{v.tag}.isnone", z3.BoolSort())
+    if type(v).__name__ == "SMatch":
+        # re.match(...) returns None exactly when there is no match
+        return _not(v.ok) if V.is_z3(v.ok) else (not v.ok)
     return False
 
 
